@@ -225,7 +225,8 @@ def run_seeded(scn, run_seed, tier, zpool, seen=(), do_min=True, min_cap=60.0, a
     fork-per-node pool in which every candidate violation must reproduce before it is
     believed, minimised and written as a replay."""
     rng = random.Random(run_seed)
-    arm = arm or scn.pick_arm(rng, tier)
+    picked = scn.pick_arm(rng, tier)  # always drawn, so forcing an arm does not shift the stream
+    arm = arm or os.environ.get("VERIF_ARM") or picked
     res = {"run_seed": run_seed, "arm": arm, "status": "ok", "violations": []}
     t0 = time.monotonic()
     try:
